@@ -66,7 +66,10 @@ def parseOp (ws : List String) (order : List Nat) : Option Op :=
   | ["check", mask] => some (.check order (natArg mask))
   | ["weight", id, lw, rw, mask] => some (.weight (natArg id) (natArg lw) (natArg rw) (natArg mask))
   | ["rmtomb", mask] => some (.rmtomb order (natArg mask))
-  | "region" :: rid :: s1 :: rest => some (.region (natArg rid) ((s1 :: rest).map natArg))
+  | "region" :: rid :: s1 :: rest =>
+    -- a trailing L marks a learner peer; the store bookkeeping counts every peer
+    some (.region (natArg rid) ((s1 :: rest).map (fun x => natArg (x.dropEndWhile (· == 'L')).toString)))
+  | ["restart"] => some .restart
   | _ => none
 
 /-! ### printing the model state in the harness format -/
